@@ -206,6 +206,23 @@ CLAIMS = {
 NOT_YET = "check under construction in this session (planned rules: DESIGN.md section 3); not claimed until it runs clean"
 
 
+# rule sets a property shares with its siblings since round 8 (DESIGN 8.19): appended to the claim text
+SHARED = {
+    "C01": " STMT-SOURCE: block statements are the user's expressions selected by name (no truth-value test, no fallback).",
+    "C05": " Shared: the gate sensor_model consults is the documented one (C06's NIS-FORM / THRESH-FORM / CMP on the Python side); the sensor model's frozen calibration vector is indexed by the sorted calibration symbols (LAY-BUILD).",
+    "C07": " Shared: cpp.BasicBlock's temporaries protocol, CSE gate and trusted sympy signatures (TMP-3 / TMP-4 / TRUST-SIG).",
+    "C09": " Shared: cpp.BasicBlock's temporaries protocol, CSE gate and trusted sympy signatures (every coefficient of a generated noise matrix is assigned).",
+    "C10": " Shared: SET-PARAMS (the configured maximum the exported filter carries is the one the user configured).",
+    "C11": " INIT: every user-written constructor of the managed filter reads each of its parameters (start time, initial estimate, calibration), in both runtimes.",
+    "C13": " Shared: the sensor model's frozen calibration vector is indexed by the sorted calibration symbols (LAY-BUILD).",
+    "C15": " Shared: GEN-MEMO (generator methods keep nothing from one emission to the next except soundly keyed memo entries).",
+    "C16": " Shared: MAKE-READING (the reading built from a sensor's columns is that sensor's Reading.from_data).",
+    "C19": " Shared: compiling the reference model neither rewrites its expressions nor writes into the shared module-level model (PY-NO-REWRITE, INPUT-PURE).",
+}
+for _p, _t in SHARED.items():
+    CLAIMS[_p]["text"] = CLAIMS[_p]["text"] + _t
+
+
 def main():
     checks = []
     for pid in props:
